@@ -178,3 +178,39 @@ prop("C12",
           "first timed lap) x start date (none; then one of logged day / next day / previous day / random 1970-2067); distinct = distinct JSON input; non-trivial = at least 3 laps",
      assumptions=["time.Time is modelled as integer nanoseconds since the epoch in UTC; the location attached to a time does not matter because the code calls .UTC()"],
      note=CONV_NOTE)
+
+GOPRO_NOTE = ("Trusted: Coq kernel + vm_compute; correspondence harness (recording/fault-injecting in-memory filesystem installed through the verif hook, "
+              "encoder stub, debug-log parser for the visiting order). Modelled not verified: the two regular expressions (as hand-written recognisers), "
+              "sort.Sort on chapters, fs.WalkDir/SkipDir, filepath.Join/Ext on clean relative paths, html/template restricted to literal/{{.Name}}/{{.Ext}} "
+              "pieces, the real os filesystem (osFS is six one-line adapters) and ffmpeg.")
+
+prop("C04",
+     axioms="none",
+     design_ref="DESIGN.md section 5 C04",
+     technique="Rocq proof over all listings and all visiting orders (grouping, validate iff contiguous, encoder only for validated groups with the exact concat list) + in-Coq correspondence with the observed map order",
+     text="Theorems about the Gallina port of Matcher.Match/FileSet/Validate/fileSets/Process: sub-directories and directories ignored, files grouped by video "
+          "number, Validate true iff chapters are 00.. or 01.. contiguous, and for EVERY visiting order, fault plan and encoder behaviour every encoder run belongs "
+          "to a validated, non-skipped group and gets each chapter once in ascending order as source paths; empty directory = ErrNoFiles.  Tied to the code by "
+          "comparing Match results on names and mutated names, Validate verdicts, and full processor runs (encoder argv, concat list content at call time, returned "
+          "files, error class, final filesystem) with the map iteration order observed from the processor's own debug log.",
+     rule="cases = Match on 27 universe names x 6 mutations; Validate on 120 chapter lists; 400 listings (60% built from joinable groups + near misses + one broken "
+          "group, 40% random subsets of the universe; sub-directories with conforming names, a directory with a conforming name, skip lists, pre-existing outputs) "
+          "x 4 configs, each run twice for different map orders; distinct = distinct JSON input; non-trivial = listing not empty",
+     assumptions=["the visiting order handed to the model is the one the run actually used (read from the debug log); the theorem quantifies over all orders"],
+     note=GOPRO_NOTE)
+
+prop("C05",
+     axioms="none",
+     level="proof",
+     design_ref="DESIGN.md section 5 C05",
+     technique="Rocq proof over all fault plans (any operation failing at any position) + exhaustive single-fault enumeration against the real processor on a fault-injecting filesystem",
+     text="Theorems about the port of processSet/Process over an abstract filesystem, for every fault plan, encoder behaviour and visiting order: at most one encoder "
+          "run per video, only for validated non-skipped groups, never over an existing output unless overwriting, argv = configured args with the temp file in the "
+          "slot after -i and the output last; on return the temp concat list is gone and every path other than the output is untouched.  Tied to the code by running "
+          "the real processor on an in-memory filesystem with every single fault at every position of each fault-free run plus random double faults.",
+     rule="for each of 45 (listing, config) pairs: the fault-free run, then one run per (operation kind, occurrence) over createtemp/write/close/stat/encoder/chtimes "
+          "as counted in the fault-free run, then 3 random double-fault plans; configs vary overwrite, skip lists, output dir '', '.', other, templates, -i \"\" positions, "
+          "encoder creating the output or not, template mapping onto a source; distinct = distinct JSON input; non-trivial = listing not empty",
+     assumptions=["Remove itself is never faulted (the property's 'no longer exists' presumes the deferred removal can run)",
+                  "the abstract filesystem's Stat/CreateTemp/Chtimes/Remove contracts are those of the harness's in-memory filesystem; the real osFS is not exercised"],
+     note=GOPRO_NOTE)
